@@ -402,3 +402,26 @@ pub proof fn lemma_mn_need_pos(n: int)
         lemma_mn_need_le_gneed(n);
     }
 }
+
+/// sqr/mod.rs:15 MAX_LEN_SIMPLE = 30: schoolbook squaring (no scratch) up to 30 words, the multiplication dispatcher above
+pub open spec fn sqr_need(n: int) -> int { if n <= 30 { 0 } else { need(n) } }
+
+/// ceil_log2 of a 64-bit length is at most 64
+pub proof fn lemma_mn_clog2_u64(n: int)
+    requires n <= 0x1_0000_0000_0000_0000,
+    ensures 0 <= clog2(n) <= 64,
+{
+    lemma_mn_clog2_nonneg(n);
+    lemma_mn_clog2_mono(n, 0x1_0000_0000_0000_0000);
+    assert(clog2(0x1_0000_0000_0000_0000) == 64) by (compute_only);
+}
+
+/// k <= f  ==>  (k <= 0 or W * f >= k * W) for any positive W: stated on the products so that no nonlinear step is left
+pub proof fn lemma_mn_lay(f: int, k: int)
+    requires k <= f,
+    ensures forall|w: int| w > 0 ==> k <= 0 || #[trigger] (w * f) >= k * w,
+{
+    assert forall|w: int| w > 0 implies k <= 0 || #[trigger] (w * f) >= k * w by {
+        assert(w * f >= k * w) by (nonlinear_arith) requires w > 0, k <= f;
+    }
+}
